@@ -360,19 +360,19 @@ func scaleIdentityCases(c *Config) {
 		}
 	}
 	side := func(i int) int { return []int{12, 12, 16, 12, 20, 12, 16, 12, 12, 40}[i%10] }
-	for i := c.Count(700, 20000); i > 0; i-- {
+	for i := c.Count(700, 10000); i > 0; i-- {
 		rd1, rd2 := genIdentityGraph(r, 8, side(i))
 		emitIds("devs", rd1, rd2)
 	}
-	for i := c.Count(300, 10000); i > 0; i-- {
+	for i := c.Count(300, 5000); i > 0; i-- {
 		rd1, rd2 := genRenameChain(r, 5+r.Intn(16))
 		emitIds([]string{"devs", "couples"}[i%2], rd1, rd2)
 	}
-	for i := c.Count(250, 8000); i > 0; i-- {
+	for i := c.Count(250, 4000); i > 0; i-- {
 		rd1, rd2 := genIdentityGraph(r, 8, side(i))
 		emitIds("couples", rd1, rd2)
 	}
-	for i := c.Count(150, 5000); i > 0; i-- {
+	for i := c.Count(150, 2500); i > 0; i-- {
 		var rd1, rd2 []string
 		if i%2 == 0 {
 			rd1, rd2 = genIdentityGraph(r, 5, 10)
@@ -543,12 +543,12 @@ func scaleDevs(c *Config, shape string, n1, n2 int) {
 
 var scaleSizesMid = []int{7, 8, 9, 12, 13, 16, 17, 31, 33, 63, 64, 65, 127, 129, 255, 256, 257, 511, 513}
 var scaleSizesBig = []int{999, 1000, 1001, 1003, 1023, 1024, 1025, 1029, 2048, 2051}
-var scaleSizesHuge = []int{4096, 4099, 8197, 10007}
 
 func scaleLargeCases(c *Config) {
 	r := c.Rng
 	axis := 0
-	run := func(f func(n1, n2 int)) {
+	// limit: the largest size of this axis in the thorough tier
+	run := func(limit int, f func(n1, n2 int)) {
 		var pairs [][2]int
 		other := func() int { return []int{3, 40, 300, 997}[r.Intn(4)] }
 		if c.Thorough() {
@@ -558,8 +558,11 @@ func scaleLargeCases(c *Config) {
 			for _, n := range scaleSizesBig {
 				pairs = append(pairs, [2]int{n, other()}, [2]int{other(), n}, [2]int{n, scaleSizesBig[r.Intn(len(scaleSizesBig))]})
 			}
-			for _, n := range scaleSizesHuge {
-				pairs = append(pairs, [2]int{n, other()}, [2]int{997, n})
+			if limit >= 4099 {
+				pairs = append(pairs, [2]int{4096, other()}, [2]int{4099, other()}, [2]int{997, 4099})
+			}
+			if limit >= 10007 {
+				pairs = append(pairs, [2]int{10007, 300})
 			}
 		} else {
 			rot := axis + int(c.Seed%10) + 10
@@ -583,11 +586,11 @@ func scaleLargeCases(c *Config) {
 			f(p[0], p[1])
 		}
 	}
-	run(func(n1, n2 int) { scaleCouplesFiles(c, n1, n2) })
-	run(func(n1, n2 int) { scaleCouplesPeople(c, n1, n2) })
-	run(func(n1, n2 int) { scaleDevs(c, "ticks", n1, n2) })
-	run(func(n1, n2 int) { scaleDevs(c, "people", n1, n2) })
-	run(func(n1, n2 int) { scaleDevs(c, "langs", n1, n2) })
+	run(10007, func(n1, n2 int) { scaleCouplesFiles(c, n1, n2) })
+	run(10007, func(n1, n2 int) { scaleCouplesPeople(c, n1, n2) })
+	run(10007, func(n1, n2 int) { scaleDevs(c, "ticks", n1, n2) })
+	run(4099, func(n1, n2 int) { scaleDevs(c, "people", n1, n2) })
+	run(2051, func(n1, n2 int) { scaleDevs(c, "langs", n1, n2) })
 }
 
 func scaleFamily(c *Config) {
